@@ -143,6 +143,14 @@ def _gd_cons(g1, g2, x):
     return cons, nf, len(table)
 
 
+def _nrtl_point(rng, two_alpha, with_a):
+    """a realistic NRTL parameter set and state, from near-ideal to strongly non-ideal (hydrocarbon in water), dilute ends included"""
+    x = rng.choice([rng.uniform(0.002, 0.998), 10 ** rng.uniform(-2.7, -1), 1 - 10 ** rng.uniform(-2.7, -1)])
+    return {"g12": rng.uniform(-4000, 30000), "g21": rng.uniform(-4000, 30000), "al12": rng.uniform(0.1, 0.5),
+            "al21": rng.uniform(0.1, 0.5) if two_alpha else None, "a12": rng.uniform(-1, 3) if with_a else 0,
+            "a21": rng.uniform(-1, 3) if with_a else 0, "T": rng.uniform(275, 398), "x": x}
+
+
 def nrtl(job):
     job.bound(no_unrolling_bound="NRTL: g12, g21, alpha12, alpha21, a12, a21, T, x all symbolic")
     job.assume("0 < x < 1 (mole fraction), 273 < T < 400", "EXP > 0; x-free atoms generalised to arbitrary reals (sound for unsat)",
@@ -166,7 +174,8 @@ def nrtl(job):
                 k += 1
                 g1, g2 = leaf.value
                 cons, nf, na = _gd_cons(g1, g2, x)
-                job.prove(tag + "/gibbs_duhem", dom + leaf.conds() + cons[:-1], cons[-1], R_GD, inputs, fallback=fb, timeout=60)
+                job.prove(tag + "/gibbs_duhem", dom + leaf.conds() + cons[:-1], cons[-1], R_GD, inputs, fallback=fb, timeout=60,
+                          sampler=lambda rng, two_alpha=two_alpha, with_a=with_a: _nrtl_point(rng, two_alpha, with_a), pc=leaf.pc)
                 job.twin_sat(tag + "/twin", dom + leaf.conds() + cons[:-1])
                 # pure limits on the executed terms
                 job.prove(tag + "/pure_1", [], terms.subst(lift(g1), [(x.t, z3.RealVal(1))]) != 1, R_PP, inputs)
